@@ -350,6 +350,7 @@ static void init_once() {
 static const char* const DOMAINS[8] = { "cpoly", "nnc", "grid", "bds", "oct", "mip", "pip", "lin" };
 static const int DOMW[8] = { 22, 16, 14, 10, 10, 10, 8, 10 };
 static Script* make_script(const std::string& d) {
+  G().scale_pct = d == "pip" ? 250 : d == "nnc" ? 130 : 100;
   if (d == "cpoly") return make_poly_script(false); if (d == "nnc") return make_poly_script(true); if (d == "grid") return make_grid_script();
   if (d == "bds") return make_bd_script(); if (d == "oct") return make_oct_script(); if (d == "mip") return make_mip_script();
   if (d == "pip") return make_pip_script(); return make_lin_script();
@@ -400,7 +401,7 @@ static void run_case(uint64_t seed) {
         for (size_t i = payload.size(); i-- > 0;) if (isdigit((unsigned char) payload[i])) { payload[i] = payload[i] == '7' ? '3' : '7'; break; }
       }
       fprintf(g_log, "R %ld %d %s\t%s\n", cs, s, op.c_str(), payload.c_str()); fflush(g_log);
-      if (res == XR_OVF) { hx::count("ovf"); sc->reset(); }
+      if (res == XR_OVF) { hx::count("ovf"); hx::rng().seed(hx::splitmix(seed ^ (0x2545f4914f6cdd1dULL * (uint64_t) (s + 1)))); sc->reset(); }
       if (res == XR_HANG) break;
       continue;
     }
@@ -419,7 +420,7 @@ static void run_case(uint64_t seed) {
     const std::string& bp = bl.payload;
     if (res == XR_HANG) { hx::inconclusive("mpz_timeout"); return; }
     if (res == XR_OVF) { violation("harness.bug.cfgdiff.overflow_in_unbounded_build", payload); return; }
-    if (bp.compare(0, 8, "OVERFLOW") == 0) { hx::count("ovf"); hx::count("dom." + dom + ".ovf"); hx::distinct(B + "|" + dom + "|" + op + "|ovf"); sc->reset(); continue; }
+    if (bp.compare(0, 8, "OVERFLOW") == 0) { hx::count("ovf"); hx::count("dom." + dom + ".ovf"); hx::rng().seed(hx::splitmix(seed ^ (0x2545f4914f6cdd1dULL * (uint64_t) (s + 1)))); sc->reset(); continue; }
     if (bp == "HANG") { violation(keybase + op + ":hang", "bounded build exceeded the logical-time budget; unbounded build: " + payload.substr(0, 300)); return; }
     if (bp.compare(0, 4, "EXC ") == 0) {
       std::string bt = bp.substr(4, bp.find(' ', 4) == std::string::npos ? std::string::npos : bp.find(' ', 4) - 4);
